@@ -120,9 +120,10 @@ impl PatchList {
         str.push_str("Content-Type: application/octet-stream\r\n");
         str.push_str(&format!("Content-Location: {}\r\n", self.content_location));
 
-        let mut total_patch_size = 0;
+        // the lengths come from the (untrusted) list: their sum must not overflow
+        let mut total_patch_size: i64 = 0;
         for patch in &self.patches {
-            total_patch_size += patch.length;
+            total_patch_size = total_patch_size.saturating_add(patch.length);
         }
 
         str.push_str(&format!("X-Patch-Length: {}\r\n", total_patch_size));
